@@ -268,10 +268,10 @@ def run(ctx):
     if corr_bad and not ctx.violations and not ctx.known_hits:
         ctx.report({"kind": "correspondence"}, f"M-POOL does not accept / does not end in the re-raised state: {corr_bad[0]}",
                    {"correspondence": "M-POOL accepts(trace with failing input)", "theorem": "Sedpack.Pool.C07_pool_fault_raises", "cases": corr_bad[:3]}, name="corr", nofail=True)
-    # ---- Rust: failures do not accumulate: 90 passes over a split with a missing shard in one process all raise, none hangs
-    ra = {"root": str(ctx.scratch / "c07_retry"), "comp": ["LZ4", ""][ctx.seed % 2], "attempts": ctx.pick(90, 200), "progress": str(ctx.scratch / "c07_retry.progress")}
+    # ---- Rust: failures do not accumulate: hundreds of passes (more than any small fixed pool of slots / handles a reader might keep) over a split with a missing shard in one process all raise, none hangs
+    ra = {"root": str(ctx.scratch / "c07_retry"), "comp": ["LZ4", ""][ctx.seed % 2], "attempts": ctx.pick(330, 1200), "progress": str(ctx.scratch / "c07_retry.progress")}
     try:
-        outs = child.call("harness.checks.c07", "rust_repeated_failures", ra, timeout=240)
+        outs = child.call("harness.checks.c07", "rust_repeated_failures", ra, timeout=240, env={"RUST_BACKTRACE": "0"})
         bad = [(k, o) for k, o in enumerate(outs) if o != "raised"]
         if bad:
             ctx.report({"kind": "ended", "iface": "rust", "repeated": True}, f"Rust pass number {bad[0][0] + 1} over a split with a missing shard (same process, earlier passes failed too): {bad[0][1]}", {"case": ra, "outcomes": outs[:100]})
